@@ -6,8 +6,7 @@ tie G : translator/c10_tables.py -> Generated/{TensorEnum,AttrKinds,Capture}.lea
 proof  : Props/C10.lean (roundtrip, canon_spec, const_type_exact, attr_kind_exact, validate_spec,
         wrong_kind_typeerror, captured_at_call, … over the generated tables)
 tie H  : (1) fromArray/toArray vs spox._utils.from_array + onnx.numpy_helper.to_array, field by field:
-             all 2^8 patterns of the 8-bit types, all 2^16 of int16/uint16/float16/bfloat16 (thorough; a
-             seeded stride in quick), boundary + random patterns of the 32/64-bit types, strings over a
+             all 2^8 patterns of the 8-bit types, all 2^16 of int16/uint16/float16/bfloat16 (both tiers), boundary + random patterns of the 32/64-bit types, strings over a
              non-ASCII alphabet, shapes (), (0,), (1,), (2,3), (0,2); toArray alone on hand-made protos
              with out-of-range int32_data
          (2) construct vs the real Attr* constructors on a universe of values x all classes
@@ -222,24 +221,19 @@ def enc_cases(ck):
         cases.append({"dtype": d, "shape": [256], "words": list(range(256))})
     cases.append({"dtype": "bool", "shape": [2], "words": [0, 1]})
     for d in ("int16", "uint16", "float16", "bfloat16"):
-        if ck.thorough:
-            for lo in range(0, 65536, 8192):
-                cases.append({"dtype": d, "shape": [8192], "words": list(range(lo, lo + 8192))})
-        else:
-            start = rng.randrange(16)
-            ws = sorted(set(list(range(start, 65536, 16)) + boundary_words(d) + list(range(0x7BF0, 0x7C10))
-                            + list(range(0xFBF0, 0xFC10)) + list(range(0x7F70, 0x7F90))))
-            cases.append({"dtype": d, "shape": [len(ws)], "words": ws})
+        # all 2^16 patterns, in both tiers
+        for lo in range(0, 65536, 8192):
+            cases.append({"dtype": d, "shape": [8192], "words": list(range(lo, lo + 8192))})
     # wide types: boundaries + random
     for d in ("int32", "int64", "uint32", "uint64", "float32", "float64", "complex64", "complex128"):
         bw = boundary_words(d)
         if len(bw) % 2 and d in DT_COMPLEX:
             bw.append(0)
         cases.append({"dtype": d, "shape": [len(bw) // comps(d)], "words": bw})
-        n = ck.pick(400, 20000)
+        n = ck.pick(2000, 200000)
         cases.append({"dtype": d, "shape": [n], "words": rand_words(rng, d, n * comps(d))})
     # strings
-    for _ in range(ck.pick(40, 400)):
+    for _ in range(ck.pick(60, 4000)):
         cases.append(rand_spec(rng, "str", layout="C"))
     cases.append({"dtype": "str", "shape": [len(ALPHABET)], "strs": [[c, 0x61] for c in ALPHABET]})
     # all shapes x all dtypes
@@ -340,7 +334,7 @@ def run_enc_correspondence(ck, q):
                           f"dtype={d} proto={str(t)[:120]!r}: model {mb} real {words_of(back)}")
     ck.cov["enc_correspondence"] = {"cases": len(cases), "elements": elems, "dec_cases": len(dec_reqs),
                                     "mismatches": mism, "platform_quietens_snan": q,
-                                    "exhaustive_16bit": bool(ck.thorough)}
+                                    "exhaustive_16bit": True}
     return mism
 
 
@@ -456,7 +450,7 @@ def run_attr_correspondence(ck, q):
 
     from translator.c10_tables import CLASSES
 
-    vals = value_universe(ck.rng, ck.pick(40, 400))
+    vals = value_universe(ck.rng, ck.pick(40, 1500))
     g = results(y=op.const(1))
     vals.append(({"k": "graph"}, g))
     reqs, real = [], []
@@ -654,8 +648,19 @@ def sites():
         def read(v):
             a = _first_attr_tensor(_build_bytes(v), optype, attr)
             stored = getattr(v._op.attrs, attr).value
-            return {"model": conv(a[field]), "value": conv(list(stored)) if field != "floats" else
-                    [f32_bits_of_double(float(x)) for x in stored]}
+            obs = {"model": conv(a[field]), "value": conv(list(stored)) if field != "floats" else
+                   [f32_bits_of_double(float(x)) for x in stored]}
+            # the propagated value of the Constant: a 1-d int64 / float32 / str tensor of the same items
+            pv = _obs_array(v._get_value())
+            want_d = {"ints": "int64", "floats": "float32", "strings": "str"}[field]
+            if field == "strings":
+                items = ["".join(map(chr, bytes(b).decode("utf-8").encode("utf-32-le")[::4])) if False else bytes(b).decode("utf-8") for b in pv["data"]]
+            elif field == "ints":
+                items = [x - (1 << 64) if x >> 63 else x for x in pv["data"]]
+            else:
+                items = pv["data"]
+            obs["model"] = {"attr": obs["model"], "propagated": [pv["dtype"] == want_d, pv["shape"], items]}
+            return obs
         return Site(name, "scalars:" + field, table, call, read)
 
     ident = lambda xs: [x.decode("utf-8") if isinstance(x, bytes) else x for x in xs]  # noqa: E731
@@ -1051,7 +1056,7 @@ def gen_embed_cases(ck):
             if dst in DT_INT + ["bool"] and src in FMT:
                 continue
             cases.append({"kind": "embed", "route": route, "arr": spec, "req_dtype": dst})
-    extra = ck.pick(150, 3000)
+    extra = ck.pick(400, 20000)
     for _ in range(extra):
         d = rng.choice(DT_ALL)
         route = rng.choice(["constant", "const", "initializer", "future_initializer", "arg_default", "attr_tensor_class"])
@@ -1121,6 +1126,45 @@ def attr_kind_cases():
     cases.append(("AttrStrings(('x','y'))", lambda: cls_attr(A.AttrStrings(("x", "y"), "k")),
                   {"name": "k", "type": T["STRINGS"], "strings": [b"x", b"y"]}))
     return cases
+
+
+def const_prop_cases():
+    """Constant built from a scalar / list attribute: the Var's type and propagated value (ONNX: value_int ->
+    int64 scalar, value_float -> float32 scalar, value_ints/floats -> 1-d, value_string(s) -> str)."""
+    import spox.opset.ai.onnx.v17 as op
+
+    f32 = f32_bits_of_double
+    u64 = lambda n: n & ((1 << 64) - 1)  # noqa: E731
+    utf = lambda s: list(s.encode("utf-8"))  # noqa: E731
+    return [
+        ("constant(value_int=-3)", lambda: op.constant(value_int=-3), "int64", [], [u64(-3)]),
+        ("constant(value_int=-2**63)", lambda: op.constant(value_int=-2**63), "int64", [], [u64(-2**63)]),
+        ("constant(value_float=0.1)", lambda: op.constant(value_float=0.1), "float32", [], [f32(0.1)]),
+        ("constant(value_float=-0.0)", lambda: op.constant(value_float=-0.0), "float32", [], [f32(-0.0)]),
+        ("constant(value_ints=[3,-1,2**63-1])", lambda: op.constant(value_ints=[3, -1, 2**63 - 1]), "int64", [3],
+         [3, u64(-1), 2**63 - 1]),
+        ("constant(value_ints=[])", lambda: op.constant(value_ints=[]), "int64", [0], []),
+        ("constant(value_floats=[0.1,1e40,-0.0])", lambda: op.constant(value_floats=[0.1, 1e40, -0.0]), "float32", [3],
+         [f32(0.1), f32(1e40), f32(-0.0)]),
+        ("constant(value_string='ü')", lambda: op.constant(value_string="ü"), "str", [], [utf("ü")]),
+        ("constant(value_strings=['b','','日本'])", lambda: op.constant(value_strings=["b", "", "日本"]), "str", [3],
+         [utf("b"), [], utf("日本")]),
+    ]
+
+
+def judge_const_prop(build, d, shape, data):
+    import numpy as np
+
+    from spox import Tensor
+
+    v = build()
+    want = Tensor(np_dtype(d) if d != "str" else np.dtype(str), tuple(shape))
+    if v.type != want:
+        return f"Var.type {v.type}, expected {want}"
+    o = _obs_array(v._get_value())
+    if o["dtype"] != d or o["shape"] != shape or not (o["data"] == data if d == "str" else same_words(d, o["data"], data)):
+        return f"propagated value {o}, expected {d}{shape} {data}"
+    return None
 
 
 def judge_attr(a, exp):
@@ -1252,6 +1296,15 @@ def run_oracle(ck):
             bad = f"raised {type(e).__name__}: {str(e)[:150]}"
         if bad:
             ck.failure(f"attr-kind:{desc.split('(')[0]}:{exp['name']}", f"{desc}: {bad}", {"kind": "attr_kind", "index": i, "desc": desc})
+    for i, (desc, build, d, shape, data) in enumerate(const_prop_cases()):
+        stats["attr_kind"] += 1
+        ck.count(("const-prop", desc))
+        try:
+            bad = judge_const_prop(build, d, shape, data)
+        except Exception as e:  # noqa: BLE001
+            bad = f"raised {type(e).__name__}: {str(e)[:150]}"
+        if bad:
+            ck.failure(f"const-prop:{desc.split('=')[0]}", f"{desc}: {bad}", {"kind": "const_prop", "desc": desc})
     # F3 wrong kinds
     for i, (desc, cname, vk, call) in enumerate(wrong_kind_cases()):
         stats["wrong_kind"] += 1
@@ -1265,7 +1318,7 @@ def run_oracle(ck):
                        {"kind": "wrong_kind", "index": i, "desc": desc})
     # F4 captured at the call
     for site in sites():
-        for k in range(ck.pick(10, 120)):
+        for k in range(ck.pick(16, 600)):
             content = gen_content(rng, site.kind)
             muts = gen_muts(rng, site.kind, content)
             early = k % 2 == 1
@@ -1325,8 +1378,7 @@ def run(ck: core.Check):
     ck.exhaustive = False
     ck.rule = (
         "encoding: all 2^8 patterns of int8/uint8, both of bool, "
-        + ("all 2^16" if ck.thorough else "a seeded 1/16 stride + all patterns around inf/NaN borders")
-        + " of int16/uint16/float16/bfloat16, boundary + seeded random patterns (NaN payloads, signalling NaNs, "
+        "all 2^16 of int16/uint16/float16/bfloat16 (exhaustive in both tiers), boundary + seeded random patterns (NaN payloads, signalling NaNs, "
         "-0, denormals, 2^63.., extremes) of the 32/64-bit and complex types, strings over a non-ASCII alphabet "
         "(1-4 byte code points, NUL inside), shapes (), (0,), (1,), (2,3), (0,2); layouts C/F/strided/big-endian/"
         "read-only; attribute classes x ~150 values; capture: every site x seeded mutation histories (1-3 steps), "
@@ -1358,6 +1410,14 @@ def replay(ck: core.Check, doc) -> bool:
         desc, build, exp = next((c for c in allc if c[0] == case.get("desc")), None) or allc[case["index"]]
         try:
             bad = judge_attr(build(), exp)
+        except Exception as e:  # noqa: BLE001
+            bad = f"raised {type(e).__name__}: {e}"
+        print(f"{desc}: {bad or 'ok'}")
+        return bool(bad)
+    if kind == "const_prop":
+        desc, build, d, shape, data = next(c for c in const_prop_cases() if c[0] == case["desc"])
+        try:
+            bad = judge_const_prop(build, d, shape, data)
         except Exception as e:  # noqa: BLE001
             bad = f"raised {type(e).__name__}: {e}"
         print(f"{desc}: {bad or 'ok'}")
